@@ -33,6 +33,8 @@ type recW struct {
 	n       int
 	sent    bool
 	sentHdr http.Header // snapshot taken at WriteHeader
+	info    bool        // model net/http's informational responses: 1xx other than 101 does not end the header phase
+	infos   int         // informational responses sent
 }
 
 func newW() *recW { return &recW{h: http.Header{}} }
@@ -46,6 +48,10 @@ func (w *recW) Write(b []byte) (int, error) {
 	return len(b), nil
 }
 func (w *recW) WriteHeader(s int) {
+	if w.info && !w.sent && s >= 100 && s <= 199 && s != 101 {
+		w.infos++
+		return
+	}
 	if !w.sent {
 		w.sent = true
 		w.status = s
